@@ -1,6 +1,7 @@
 import PrysmVerif.Generated.C10
 import PrysmVerif.Lemmas.C10Sums
 import PrysmVerif.Lemmas.C10Pack
+import PrysmVerif.Lemmas.C10Normal
 /-!
 # C10 — fast modal sums equal explicit sums; least-squares fit inverts synthesis
 
@@ -266,6 +267,49 @@ compared with that vector. -/
 theorem normal_equations_minimise (V : Finset ι) (M : κ → ι → F) (d : ι → F) (w : κ → F)
     (hN : ∀ k, ∑ i ∈ V, M k i * (∑ j, w j * M j i - d i) = 0) (v : κ → F) :
     lsqCost V M d w ≤ lsqCost V M d v := C10L.normal_eq_minimises V M d w hN v
+
+/-- **least squares ⇒ normal equations** (converse of `normal_equations_minimise`, no independence needed): a minimiser of the
+masked cost satisfies `Aᵀ(A w - d) = 0`; so "minimiser" and "solution of the normal equations" are the same thing -/
+theorem minimiser_iff_normal_equations [DecidableEq κ] (V : Finset ι) (M : κ → ι → F) (d : ι → F) (w : κ → F) :
+    (∀ v, lsqCost V M d w ≤ lsqCost V M d v) ↔ ∀ k, ∑ i ∈ V, M k i * (∑ j, w j * M j i - d i) = 0 :=
+  C10L.minimiser_iff_normal_eq V M d w
+
+/-- **fit ∘ synthesis = id through the normal equations**: data synthesised from the modes on the valid samples, modes independent
+there ⇒ EVERY solution of the normal equations is the synthesising coefficient vector (what the exact oracle `lstsqNormal` returns,
+and what any correct least-squares solver must return) -/
+theorem normal_equations_recover (V : Finset ι) (M : κ → ι → F) (d : ι → F) (c : κ → F)
+    (hsyn : ∀ i ∈ V, d i = ∑ k, c k * M k i)
+    (hindep : ∀ v : κ → F, (∀ i ∈ V, ∑ k, v k * M k i = 0) → v = 0) (w : κ → F)
+    (hN : ∀ k, ∑ i ∈ V, M k i * (∑ j, w j * M j i - d i) = 0) : w = c := C10L.normal_eq_recovers V M d c hsyn hindep w hN
+
+/-- the normal equations have at most one solution when the modes are independent on the valid samples — for ANY data, synthesised
+or not (the Gram matrix `AᵀA` has a trivial kernel) -/
+theorem normal_equations_unique (V : Finset ι) (M : κ → ι → F) (d : ι → F)
+    (hindep : ∀ v : κ → F, (∀ i ∈ V, ∑ k, v k * M k i = 0) → v = 0) (w w' : κ → F)
+    (hN : ∀ k, ∑ i ∈ V, M k i * (∑ j, w j * M j i - d i) = 0)
+    (hN' : ∀ k, ∑ i ∈ V, M k i * (∑ j, w' j * M j i - d i) = 0) : w = w' := C10L.normal_eq_unique V M d hindep w w' hN hN'
+
+/-- **the fit is well defined**: modes independent on the valid samples ⇒ for ANY data the masked cost has exactly one minimiser
+(the Gram matrix is invertible over the field; existence AND uniqueness), so "the coefficients `lstsq` returns" is a function of the
+valid samples alone -/
+theorem lstsq_exists_unique [DecidableEq κ] (V : Finset ι) (M : κ → ι → F) (d : ι → F)
+    (hindep : ∀ v : κ → F, (∀ i ∈ V, ∑ k, v k * M k i = 0) → v = 0) :
+    ∃! w : κ → F, ∀ v, lsqCost V M d w ≤ lsqCost V M d v := C10L.lstsq_exists_unique V M d hindep
+
+/-- **the run-time re-check of the exact oracle is enough**: if the list program `Model.C10.normalResidual` returns zeros for a reply
+`w` (this is what the driver tests, in exact rational arithmetic, before it attaches the flag `normal-equations-hold`; the harness
+refuses replies without it), the kept data are synthesised from the kept modes with coefficients `c`, and the kept modes are
+independent, then `w` IS `c`, entry by entry.  Closes the gap left by the unproved Gauss–Jordan solver `lstsqNormal`. -/
+theorem flagged_reply_is_synthesis (modes : List (List F)) (data : List F) (mask : List Bool) (w : List F) (c : Nat → F)
+    (hshape : ∀ col ∈ modes.map (maskSel mask), col.length = (maskSel mask data).length)
+    (hz : ∀ k, k < (modes.map (maskSel mask)).length → nth (normalResidual modes data mask w) k = 0)
+    (hsyn : ∀ i, i < (maskSel mask data).length →
+      nth (maskSel mask data) i = ∑ j ∈ Finset.range (modes.map (maskSel mask)).length, c j * nth ((modes.map (maskSel mask)).getD j []) i)
+    (hindep : ∀ v : Nat → F, (∀ i, i < (maskSel mask data).length →
+      ∑ j ∈ Finset.range (modes.map (maskSel mask)).length, v j * nth ((modes.map (maskSel mask)).getD j []) i = 0) →
+      ∀ j, j < (modes.map (maskSel mask)).length → v j = 0) :
+    ∀ j, j < (modes.map (maskSel mask)).length → nth w j = c j :=
+  C10L.flagged_reply_is_synthesis modes data mask w c hshape hz hsyn hindep
 
 /-- samples outside the valid set (and whatever the modes are there) cannot influence the fit -/
 theorem lstsq_ignores_invalid (V : Finset ι) (M M' : κ → ι → F) (d d' : ι → F)
